@@ -113,9 +113,10 @@ pub fn reset_scripts() {
 }
 
 /// Key 9 is the "large" key: its value carries 200 bytes of padding (for max_memory functions).
+/// Key 8 grows: the first version is small, every later version (a refresh) is large.
 pub fn value(fid: u32, k: u32, ver: u32) -> String {
     let mut s = format!("f{fid}k{k}v{ver}");
-    if k == 9 {
+    if k == 9 || (k == 8 && ver >= 2) {
         s.push_str(&"#".repeat(200));
     }
     s.shrink_to_fit();
